@@ -30,11 +30,27 @@ ALLOW = os.path.join(VERIF, 'trusted_allowlist.txt')
 MINIMUMS = os.path.join(VERIF, 'units', 'minimums.json')
 
 # properties whose witness search is deterministic (no timing, no socket-buffer dependence)
-# property -> (witness mode, stated bound) of the always-on bounded server scenarios
+# property -> (witness mode, quick budget, thorough budget, stated bound): bounded legs that run on EVERY check.
+# They drive the real crate (built from /repo) and compare it with a reference written from the property statement
+# or with itself; labelled bounded in the evidence, never counted as proved.  For C04/C07/C09 they are the only
+# cover of HttpServer::requests / handle_new_connection (fixed server histories); for the others they cover what the
+# contracts leave assumed (Response::write_all composition, recv_with_fds, find, Body::new, std str functions).
 SCENARIOS = {
-    'C04': ('C04s', '7 histories: limit at connect x limit changed later x declared length around the limit, one client, through HttpServer'),
-    'C07': ('C07', '2 histories: four answers in one enqueue_responses batch for two clients; close with a request in flight, late answer, second client'),
-    'C09': ('C09', '1 history: pipelined requests, shutdown(Read), answers, a second client must still be served'),
+    'C01': ('C01', 1500, 20000, 'random pipelined streams x random segmentations (pieces 1..1024 B, empty reads), each compared with the same stream read in 1024-byte pieces'),
+    'C02': ('C02', 3000, 50000, 'random grammar-derived and corrupted streams against the reference parser'),
+    'C03': ('C03', 1000, 20000, 'random/mutated byte strings through Request::try_from and the connection under catch_unwind; one write per try_write'),
+    'C04': ('C04', 1500, 20000, 'random streams around the limits against the reference parser + 7 server histories (limit at connect x limit changed later x declared length)'),
+    'C05': ('C05', 5000, 50000, 'responses built through the public API, serialised and re-read by an independent reader'),
+    'C06': ('C06', 3000, 30000, 'random response queues x scripted short/zero/EINTR/error writes'),
+    'C07': ('C07', 1, 1, '4 histories: four answers in one enqueue_responses batch for two clients; close with a request in flight (after ECONNRESET / after EPIPE), descriptor reuse, late answer'),
+    'C09': ('C09', 1, 1, '3 histories: the repaired defect; ten half-closed / non-reading clients answered, then an eleventh must be served; requests() never Err'),
+    'C11': ('C11', 500, 10000, 'error-inducing prefix A (9 kinds, random segmentation) followed by random B: connection after the error vs new connection'),
+    'C12': ('C12', 300, 5000, 'pipelined streams x segmentations x descriptors attached to reads, told apart by numbered files'),
+    'C13': ('C13', 1500, 20000, 'random streams with/without Expect x segmentations: queued 100-continue responses against the reference'),
+    'C14': ('C14', 3000, 50000, 'grammar-derived slices and corruptions: Request::try_from vs the connection fed the same bytes (+ probe request)'),
+    'C15': ('C15', 2000, 20000, 'random header lines/blocks over the 7 names (letter case, SP/HTAB/Unicode padding, values) against a reference of the rules'),
+    'C16': ('C16', 1, 1, 'all strings <= 5 over the token alphabet for method/version/media type; all URIs <= 5 (+ http:// prefixes <= 3) over the property alphabet'),
+    'C17': ('C17', 200, 2000, 'random route tables over a 10-path alphabet x 4 prefixes x 3 methods with duplicates; every request in origin- and absolute-form'),
 }
 WITNESS_FALLBACK = ('C01', 'C02', 'C03', 'C04', 'C05', 'C06', 'C07', 'C09', 'C11', 'C12', 'C13', 'C14', 'C15', 'C16', 'C17')
 
@@ -103,7 +119,7 @@ def load_known():
     return known, fixed
 
 
-def witness(prop, clause, tier):
+def witness(prop, clause, tier, budget=None):
     if os.environ.get('VERIF_NO_WITNESS'):
         return dict(status='skipped')
     """Try to exhibit a concrete failing input on the real code for this property."""
@@ -115,7 +131,7 @@ def witness(prop, clause, tier):
                                     CARGO_NET_OFFLINE='true', VERIF_REPO=REPO))
         if b.returncode != 0:
             return dict(status='witness-build-failed', detail=b.stderr[-1500:])
-        budget = os.environ.get('VERIF_WITNESS_BUDGET') or ('20000' if tier == 'quick' else '200000')
+        budget = str(budget) if budget else (os.environ.get('VERIF_WITNESS_BUDGET') or ('20000' if tier == 'quick' else '200000'))
         p = subprocess.run([exe, prop, budget], capture_output=True, text=True, timeout=900)
         out = p.stdout.strip().split('\n')[-1] if p.stdout.strip() else ''
         try:
@@ -459,20 +475,20 @@ def main():
     # REAL server on every run.  Labelled bounded, never counted as proved; a finding is a concrete, reproduced history.
     scen_wit = None
     if prop in SCENARIOS and not os.environ.get('VERIF_NO_WITNESS'):
-        scen_wit = witness(SCENARIOS[prop][0], 'scenario', tier)
+        scen_wit = witness(SCENARIOS[prop][0], 'scenario', tier, budget=SCENARIOS[prop][1 if tier == 'quick' else 2])
         st = scen_wit.get('status')
-        bounded.append(dict(harness='wit ' + SCENARIOS[prop][0], bound=SCENARIOS[prop][1], complete=False,
+        bounded.append(dict(harness='wit ' + SCENARIOS[prop][0], bound=SCENARIOS[prop][3] + ' (budget %d, seeded)' % SCENARIOS[prop][1 if tier == 'quick' else 2], complete=False,
                             status='success' if st == 'not-found' else ('failed' if st == 'found' else str(st)), checks=scen_wit.get('tried'), wall_s=None))
         if st == 'found':
-            violations.append(dict(clause='scenario.' + SCENARIOS[prop][0], fn='HttpServer (requests / handle_new_connection / respond)', tags=[prop],
-                                   message='server history: observed %s; expected %s' % (scen_wit.get('observed'), scen_wit.get('expected')),
-                                   rendered=json.dumps(scen_wit, indent=1), unit='witness', site='server history', kind='scenario'))
+            violations.append(dict(clause='scenario.' + SCENARIOS[prop][0], fn='(whole crate, driven through its public API)', tags=[prop],
+                                   message='bounded search on the real code: input %s; observed %s; expected %s' % (str(scen_wit.get('input'))[:300], str(scen_wit.get('observed'))[:300], str(scen_wit.get('expected'))[:300]),
+                                   rendered=json.dumps(scen_wit, indent=1), unit='witness', site='bounded search', kind='scenario'))
             obligations += 1
         elif st == 'not-found':
             obligations += 1
             discharged += 1
         else:
-            undecided.append('server scenarios: %s' % str(scen_wit)[:300])
+            undecided.append('bounded search: %s' % str(scen_wit)[:300])
 
     # An obligation that fails in a function whose proof hints no longer fit the code (renamed locals,
     # restructured statements) proves nothing: the proof script, not the property, may be what broke.
